@@ -191,6 +191,40 @@ def h_cpp_weights(env, total):
 h_cpp_weights.replay_any = True
 
 
+def h_cpp_reduce_indices(env, modes):
+    """src/torontonian_common.cpp calculate_reduce_indices (index bookkeeping of the recursive torontonian / loop torontonian) for
+    EVERY increasing list of holes among `modes` modes: the list length and the hole values are solver-chosen integers, every
+    comparison with a hole is a solver decision; the result is the complement of the holes and no subscript leaves its vector."""
+    prog = cc.program("reduce")
+    env.functions += cc.fn_refs(prog, "calculate_reduce_indices (clang-14 AST)")
+    k = env.pick_int("k", 0, modes)
+    hs = [env.ivar("h%d" % i, 0, modes - 1) for i in range(k)]
+    if env.mode == "num":
+        ok = all(hs[i] < hs[i + 1] for i in range(k - 1))
+        env.num_assumptions.append(("holes increasing", ok))
+        if not ok:
+            return
+        got, ub = cc.native_reduce(hs, modes)
+        env.holds("result is the complement of the holes", got == [i for i in range(modes) if i not in hs])
+        env.holds("no undefined behaviour in calculate_reduce_indices", not ub)
+        return
+    for i in range(k - 1):
+        env.assume("holes increasing %d" % i, xa.SymBool(hs[i] < hs[i + 1]))
+    fn = prog.find(None, "calculate_reduce_indices", 2)
+    it = cx.Interp(prog, env)
+    res = it.call(fn, [cx.Ref([[si.SI(h, 64) for h in hs]], 0), cx.Ref([modes], 0)])
+    res = [int(x) if not isinstance(x, si.SI) else it.conc(x) for x in res]
+    cond = []
+    for i in range(modes):
+        notin = z3.And(*[h != i for h in hs]) if hs else z3.BoolVal(True)
+        cond.append(notin if i in res else z3.Not(notin))
+    env.holds("result is the complement of the holes", xa.SymBool(z3.And(*cond)) if cond else True)
+    env.holds("no undefined behaviour in calculate_reduce_indices", not it.ub_events)
+
+
+h_cpp_reduce_indices.replay_any = True
+
+
 def h_cpp_pfaffian(env, n, zeros=()):
     """src/pfaffian.cpp pfaffian_cpp<double> (Parlett-Reid with partial pivoting) interpreted from clang's AST on a GENERIC real
     skew-symmetric n x n matrix (optionally with structural zeros, which steer the pivot search into its rarely taken branches):
@@ -218,7 +252,7 @@ def h_cpp_pfaffian(env, n, zeros=()):
         env.holds("no undefined behaviour in pfaffian_cpp", not ub)
 
 
-HARNESSES = {"powtrace": h_powtrace, "hessenberg": h_hessenberg, "cpp_permanent": h_cpp_permanent, "cpp_weights": h_cpp_weights, "cpp_pfaffian": h_cpp_pfaffian}
+HARNESSES = {"powtrace": h_powtrace, "hessenberg": h_hessenberg, "cpp_permanent": h_cpp_permanent, "cpp_weights": h_cpp_weights, "cpp_pfaffian": h_cpp_pfaffian, "cpp_reduce_indices": h_cpp_reduce_indices}
 
 
 def instances(tier):
@@ -226,6 +260,7 @@ def instances(tier):
     out += [("cpp_permanent", {"rows": list(r), "cols": list(c)}) for r, c in (((1, 1), (1, 1)), ((2, 1), (1, 2)), ((0, 2), (1, 1)), ((1, 1, 1), (1, 1, 1)), ((2, 0, 1), (1, 1, 1)), ((2, 2), (3, 1)), ((1, 2, 1), (2, 0, 2)), ((3, 2), (4, 1)), ((2, 2, 1), (1, 3, 1)))]
     out += [("cpp_permanent", {"rows": list(r), "cols": list(c), "kernel": "laplace"}) for r, c in (((1, 1), (2, 1)), ((2, 1), (2, 2)), ((1, 0, 1), (1, 1, 1)), ((2, 2), (3, 2)), ((0, 2, 1), (2, 1, 1)))]
     out += [("cpp_weights", {"total": 24}), ("cpp_weights", {"total": 40})]
+    out += [("cpp_reduce_indices", {"modes": m}) for m in (1, 2, 3, 4)]
     out += [("cpp_pfaffian", {"n": 2}), ("cpp_pfaffian", {"n": 4}), ("cpp_pfaffian", {"n": 3}),
             ("cpp_pfaffian", {"n": 4, "zeros": [[0, 1], [0, 2], [1, 3], [2, 3]]}),       # anti-diagonal pairing: the only pivot candidate is the last row
             ("cpp_pfaffian", {"n": 4, "zeros": [[0, 1], [0, 2]]}), ("cpp_pfaffian", {"n": 4, "zeros": [[0, 1]]}),
